@@ -31,12 +31,27 @@ def py_pred(c, n):
     return c[1] != 0 and n % c[1] == c[2]
 
 
+def executed(case, obs):
+    """script commands that were executed (a panic inside Sim::step ends a sim-mode script)"""
+    return case["script"][:len(obs["obs"])]
+
+
+def first_live_match(live, ty, n):
+    return next((b for b in live if b[1] == ty and py_pred(b[3], n)), None)
+
+
 def to_model(case, obs):
     evs = []
-    for c in case["script"]:
+    groups = []          # number of model events per script command
+    live = []            # (bid, ty, react, cond): only to decide whether a corruption event panics its reader
+    nb = 0
+    for c in executed(case, obs):
         n = c[0]
+        k0 = len(evs)
         if n == "build":
             evs.append("Build %s (ccond %d %s)" % (REACT[c[2]], c[1], coq_pred(c[3])))
+            live.append((nb, c[1], c[2], c[3]))
+            nb += 1
         elif n == "trigger":
             evs.append("Trigger %d (%d, %d)" % (c[1], c[2], c[3]))
         elif n == "trigger_noop":
@@ -44,18 +59,33 @@ def to_model(case, obs):
         elif n == "corrupt_read":
             # turmoil-fs fires the corruption hook = trigger_noop(FsCorruption{offset: n}) (type tag 2)
             evs.append("TriggerNoop %d (2, %d)" % (c[1], c[2]))
+        elif n == "corrupt_then":
+            # the hook fires INSIDE the read: the trigger precedes whatever the host code does next
+            evs.append("TriggerNoop %d (2, %d)" % (c[1], c[2]))
+            m = first_live_match(live, 2, c[2])
+            if m is None or m[2] == "noop":
+                for a in c[3]:
+                    if a[0] == "build":
+                        evs.append("Build %s (ccond %d %s)" % (REACT[a[2]], a[1], coq_pred(a[3])))
+                        live.append((nb, a[1], a[2], a[3]))
+                        nb += 1
+                    elif a[0] == "drop_barrier":
+                        evs.append("DropBarrier %d" % a[1])
+                        live = [x for x in live if x[0] != a[1]]
         elif n == "wait":
             evs.append("Wait %d" % c[1])
         elif n == "drop_handle":
             evs.append("DropHandle %d" % c[1])
         elif n == "drop_barrier":
             evs.append("DropBarrier %d" % c[1])
+            live = [x for x in live if x[0] != c[1]]
         elif n == "abandon":
             evs.append("Abandon %d" % c[1])
         elif n == "kill":
             evs.append("Kill %d" % c[1])
+        groups.append(len(evs) - k0)
     term = "crun %d [%s]" % (case["cfg"]["nsrc"], "; ".join(evs))
-    return term, list(range(len(evs))), []
+    return term, groups, []
 
 
 def compare(case, obs, model, probes):
@@ -64,16 +94,22 @@ def compare(case, obs, model, probes):
     if isinstance(model, tuple) and model and model[0] == "error":
         return "model evaluation failed: %s" % str(model[1])[-400:]
     io = obs["obs"]
-    if len(model) != len(io):
-        return "model produced %d outputs for %d commands" % (len(model), len(io))
+    if sum(probes) != len(model) or len(probes) != len(io):
+        return "model produced %d outputs for %d commands (%d events)" % (len(model), len(io), sum(probes))
+    # one model output per command: the first event's observation, the last event's source states
+    folded, k = [], 0
+    for g in probes:
+        folded.append((model[k][0], model[k + g - 1][1]))
+        k += g
+    model = folded
     started = [0] * case["cfg"]["nsrc"]
-    for i, (c, (r, st), (mo, ms)) in enumerate(zip(case["script"], io, model)):
+    for i, (c, (r, st), (mo, ms)) in enumerate(zip(executed(case, obs), io, model)):
         where = "cmd %d %s" % (i, json.dumps(c))
         n = c[0]
         if n == "build":
             if [0, r] != list(mo):
                 return "%s: barrier number %s, model %s" % (where, r, mo)
-        elif n in ("trigger", "trigger_noop", "corrupt_read"):
+        elif n in ("trigger", "trigger_noop", "corrupt_read", "corrupt_then"):
             want = "sent" if mo == [1] else "busy"
             if r != want:
                 return "%s: source was %s for the implementation, %s for the model" % (where, r, want)
@@ -89,7 +125,7 @@ def compare(case, obs, model, probes):
             else:
                 return "%s: wait returned %s" % (where, r)
         # source states
-        for k, ((s, ret, fin, ab, killed), m) in enumerate(zip(st, ms)):
+        for k, ((s, ret, fin, ab, killed, marks), m) in enumerate(zip(st, ms)):
             impl = 3 if killed else (2 if fin else (0 if s == ret + ab else 1))
             if impl != m or s != started[k] or (fin and not killed and s != ret + ab + 1) or s - ret - ab not in (0, 1):
                 names = ["running", "suspended", "panicked", "gone"]
@@ -115,6 +151,7 @@ def oracle(case, obs):
     calls = [0] * nsrc
     rets = [0] * nsrc
     gave_up = [0] * nsrc
+    marks = [0] * nsrc
     callno = 0
 
     def fail(t):
@@ -126,15 +163,19 @@ def oracle(case, obs):
             rets[src] += 1
             del parked[src]
 
-    for i, (c, (r, st)) in enumerate(zip(case["script"], io)):
+    for i, (c, (r, st)) in enumerate(zip(executed(case, obs), io)):
         n = c[0]
         where = "cmd %d %s" % (i, json.dumps(c))
+        after = []
         if n == "build":
             live.append([nb, c[1], c[2], c[3], []])
             nb += 1
-        elif n in ("trigger", "trigger_noop", "corrupt_read"):
+        elif n in ("trigger", "trigger_noop", "corrupt_read", "corrupt_then"):
             src = c[1]
-            if n == "corrupt_read":
+            if n == "corrupt_then":
+                after = c[3]      # what the host code does behind the read, in the same tick
+            if n in ("corrupt_read", "corrupt_then"):
+                # the corruption event is triggered inside the read, synchronously
                 c = ["trigger_noop", c[1], 2, c[2]]
                 n = "trigger_noop"
             if r == "sent":
@@ -154,6 +195,21 @@ def oracle(case, obs):
                     parked[src] = callno
                 else:
                     state[src] = "dead"     # Panic, or trigger_noop on a Suspend barrier
+                if state[src] == "run":
+                    # code behind the read runs only if the read returned; barriers it creates or
+                    # drops did not exist / were still alive when the trigger fired
+                    for a in after:
+                        if a[0] == "mark":
+                            marks[src] += 1
+                        elif a[0] == "build":
+                            live.append([nb, a[1], a[2], a[3], []])
+                            nb += 1
+                        elif a[0] == "drop_barrier":
+                            b = next((x for x in live if x[0] == a[1]), None)
+                            if b is not None:
+                                live.remove(b)
+                                for (_, _, s2, no) in b[4]:
+                                    release(s2, no)
             else:
                 if state[src] == "run":
                     fail("%s: source %d should be able to trigger but is %s" % (where, src, r))
@@ -192,7 +248,10 @@ def oracle(case, obs):
                 live.remove(b)
                 for (_, _, src, no) in b[4]:
                     release(src, no)
-        for k, (s, ret, fin, ab, killed) in enumerate(st):
+        for k, (s, ret, fin, ab, killed, mk) in enumerate(st):
+            if mk != marks[k]:
+                fail("%s: source %d has run %d progress markers behind its corrupted reads, expected %d (the corruption trigger fires inside the read: a Panic barrier stops the reader there)" % (where, k, mk, marks[k]))
+                break
             want = state[k]
             got = "gone" if killed else ("dead" if fin else ("run" if s == ret + ab else "susp"))
             if got != want or s != calls[k] or ((ret, ab) != (rets[k], gave_up[k]) and want != "gone"):
@@ -206,13 +265,15 @@ def oracle(case, obs):
 def features(case, obs):
     f = set()
     for c, (r, st) in zip(case["script"], obs.get("obs", [])):
+        if c[0] == "corrupt_then":
+            f.add("drop_barrier")
         if c[0] == "wait" and isinstance(r, list):
             f.add("delivered")
         if c[0] == "wait" and r is None:
             f.add("pending")
-        if any(s != ret + ab and not fin and not kl for (s, ret, fin, ab, kl) in st):
+        if any(s != ret + ab and not fin and not kl for (s, ret, fin, ab, kl, _) in st):
             f.add("suspended")
-        if any(fin and not kl for (_, _, fin, _, kl) in st):
+        if any(fin and not kl for (_, _, fin, _, kl, _) in st):
             f.add("panicked")
         if c[0] in ("kill", "abandon"):
             f.add("vanished")
@@ -284,6 +345,49 @@ def gen_script(rng, mode="local", size=None):
         for b in range(nb):
             s.append(["drop_barrier", b])
     return {"cfg": {"mode": mode, "nsrc": nsrc}, "script": s, "flavour": mode}
+
+
+def gen_hook_tick(rng):
+    """Sim mode, fs corruption hook: within ONE tick a host reads (corruption probability 1, the
+    hook triggers inside the read), then creates / drops barriers and writes progress markers.
+    The trigger must go to the barriers alive at the read, before any marker behind the read; a
+    Panic (or Suspend) barrier must stop the reader at the read."""
+    nsrc = rng.choice([1, 2, 3])
+    s = []
+    nb = 0
+    live = []
+    danger = rng.random() < 0.35          # a Panic / Suspend barrier on FsCorruption ends the run when hit
+    for _ in range(rng.choice([0, 1, 2])):
+        s.append(["build", 2, "noop", rand_cond(rng)])
+        live.append(nb)
+        nb += 1
+    if danger:
+        s.append(["build", 2, rng.choice(["panic", "panic", "suspend"]), rng.choice([["eq", 3], ["gt", 5], ["any"]])])
+        live.append(nb)
+        nb += 1
+    for _ in range(rng.randrange(2, 7)):
+        src = rng.randrange(nsrc)
+        acts = []
+        for _ in range(rng.choice([1, 2, 3])):
+            x = rng.random()
+            if x < 0.35:
+                acts.append(["mark"])
+            elif x < 0.7:
+                acts.append(["build", 2, "noop", rng.choice([["any"], ["any"], ["gt", 1], ["mod", 2, 0]])])
+                live.append(nb)
+                nb += 1
+            elif live:
+                b = live.pop(0) if rng.random() < 0.6 else live.pop(rng.randrange(len(live)))
+                acts.append(["drop_barrier", b])
+        s.append(["corrupt_then", src, rng.randrange(8), acts])
+        if rng.random() < 0.3:
+            s.append(["corrupt_read", rng.randrange(nsrc), rng.randrange(8)])
+        if rng.random() < 0.3 and nb:
+            s.append(["wait", rng.randrange(nb)])
+    for b in range(nb):
+        for _ in range(rng.choice([1, 2, 4])):
+            s.append(["wait", b])
+    return {"cfg": {"mode": "sim", "nsrc": nsrc}, "script": s, "flavour": "hook-tick"}
 
 
 def gen_vanish(rng, mode="local"):
@@ -395,6 +499,9 @@ def histogram(cases):
         h["sources"][k] = h["sources"].get(k, 0) + 1
         for cmd in c["script"]:
             h["cmds"][cmd[0]] = h["cmds"].get(cmd[0], 0) + 1
+            if cmd[0] == "corrupt_then":
+                for a in cmd[3]:
+                    h["cmds"]["in-tick " + a[0]] = h["cmds"].get("in-tick " + a[0], 0) + 1
             if cmd[0] == "build":
                 h["reactions"][cmd[2]] = h["reactions"].get(cmd[2], 0) + 1
                 h["conds"][cmd[3][0]] = h["conds"].get(cmd[3][0], 0) + 1
